@@ -46,7 +46,8 @@ def parseOp (w : World Nat Nat) (s : String) : Option (Op Nat) :=
       match a.splitOn "," with
       | [x, y] => do let i ← i; let x ← x.toNat?; let y ← y.toNat?; pure (.view i x y)
       | _ => none
-    else if h.startsWith "j" then do let i ← i; let js ← parseNats a; pure (.join i js)
+    -- md.join of a one-element list is a copy of that trajectory, i.e. t[:] (cache included); with more operands it is `join`
+    else if h.startsWith "j" then do let i ← i; let js ← parseNats a; pure (if js.isEmpty then .getitem i (.slice none none 1) else .join i js)
     else if h.startsWith "k" then do let i ← i; let j ← a.toNat?; pure (.stack i j)
     else if h.startsWith "p" then do let i ← i; let r ← a.toNat?; pure (.superpose i r)
     else if h.startsWith "T" then do
